@@ -409,6 +409,93 @@ def add_dispatch_generator(pack):
     c.ensures("the _basilisp_fn decorator of the dispatcher is given exactly the max_fixed_arity handed to the generator (the analyzer's count, which includes the fixed "
               "parameters of the variadic arity): the number apply_to peels off the argument sequence", disp_post)
 
+    # ---- recur inside one arity of a multi-arity function re-enters *that* arity (each arity function is trampolined on
+    # its own), so the recur point of an arity has to carry that arity's own variadic-ness: it decides whether the
+    # trampoline unrolls the last recur argument into the rest parameter
+    from basilisp.lang.compiler import nodes
+
+    VAR1, VAR2 = z3.Bool("arity1.is_variadic"), z3.Bool("arity2.is_variadic")
+    LOOP1, LOOP2 = z3.Const("arity1.loop_id", V.Val), z3.Const("arity2.loop_id", V.Val)
+
+    class NullCM:
+        """stand-in for the context managers of GeneratorContext: no effect on the block"""
+
+    class RecurPointStandin:
+        __slots__ = ("has_recur",)
+
+    def msetup(eng, st):
+        dsetup(eng, st)
+        for c_ in (nodes.Fn, nodes.FnArity, NullCM, RecurPointStandin):
+            eng.class_id(c_)
+        objs = []
+        for n, (var_, loop_) in enumerate(((VAR1, LOOP1), (VAR2, LOOP2)), start=1):
+            # two arity nodes as objects of this run (distinct by construction); their fixed arities are the concrete
+            # numbers 1 and 2 (they become keys of a Python dict in the generator), everything else is symbolic
+            o = eng.alloc(st, nodes.FnArity)
+            eng.store_field(st, o.t, "fixed_arity", V.mk_int(n), None)
+            eng.store_field(st, o.t, "is_variadic", V.mk_bool(var_), None)
+            eng.store_field(st, o.t, "loop_id", loop_, None)
+            eng.store_field(st, o.t, "op", eng.lift(nodes.NodeOp.FN_ARITY, st), None)
+            eng.store_field(st, o.t, "tag", V.VNone, None)
+            objs.append(o)
+        st.ghost["arity_objs"] = objs
+        eng.field_types[("FnArity", "is_variadic")] = lambda v: V.is_bool(v)
+        eng.field_types[("FnArity", "fixed_arity")] = lambda v: V.is_int(v)
+        eng.field_types[("Fn", "is_variadic")] = lambda v: V.is_bool(v)
+        eng.method_models[(NullCM, "__enter__")] = Model("context manager __enter__", lambda e, s, a, k: iter([(s, None)]))
+        eng.method_models[(NullCM, "__exit__")] = Model("context manager __exit__", lambda e, s, a, k: iter([(s, False)]))
+        GC = gen.GeneratorContext
+        eng.method_models[(GC, "new_symbol_table")] = Model("GeneratorContext.new_symbol_table", lambda e, s, a, k: iter([(s, e.alloc(s, NullCM))]))
+
+        def new_recur_point(e, s, a, k):
+            s.ghost["recur_points"] = list(s.ghost.get("recur_points", [])) + [(e.lift(a[1], s), e.lift(k.get("is_variadic", a[3] if len(a) > 3 else None), s))]
+            yield s, e.alloc(s, NullCM)
+
+        eng.method_models[(GC, "new_recur_point")] = Model("GeneratorContext.new_recur_point (recorded)", new_recur_point)
+        rp = Model("GeneratorContext.recur_point (some recur point)", lambda e, s, a, k: iter([(s, e.alloc(s, RecurPointStandin))]))
+        rp.is_property = True
+        eng.method_models[(GC, "recur_point")] = rp
+        eng.field_types[("RecurPointStandin", "has_recur")] = lambda v: V.is_bool(v)
+        eng.models[id(gen.__dict__["__fn_args_to_py_ast"])] = Model("__fn_args_to_py_ast (opaque)", lambda e, s, a, k: iter([(s, (SV(V.fresh_val("fn_args")), SV(V.fresh_val("varg")), SV(V.fresh_val("body")), []))]))
+        eng.models[id(gen._should_gen_safe_python_param_names)] = Model("_should_gen_safe_python_param_names", lambda e, s, a, k: iter([(s, True)]))
+        eng.models[id(gen._fn_node)] = Model("_fn_node (opaque)", lambda e, s, a, k: iter([(s, SV(V.fresh_val("fn_def")))]))
+        eng.models[id(gen.munge)] = Model("munge (run natively)", lambda e, s, a, k: iter([(s, gen.munge(*a, **k))]))
+
+        def dispatch(e, s, a, k):
+            r = e.alloc(s, gen.GeneratedPyAST)
+            e.store_field(s, r.t, "node", V.fresh_val("dispatch_node"), None)
+            e.store_field(s, r.t, "dependencies", e.lift(e.new_list(s, []), s), None)
+            yield s, r
+
+        eng.models[id(gen.__dict__["__multi_arity_dispatch_fn"])] = Model("__multi_arity_dispatch_fn (contract above)", dispatch)
+
+    c = pack.contract("basilisp.lang.compiler.generator:__multi_arity_fn_to_py_ast")
+    c.label = "two arities"
+    c.param("ctx", OBJ(gen.GeneratorContext)).param("node", OBJ(nodes.Fn))
+    c.param_value("arities", lambda eng, st: tuple(st.ghost["arity_objs"]))
+    c.param_value("def_name", lambda eng, st: "f")
+    c.param_value("meta_node", lambda eng, st: None)
+    c.setup(msetup)
+    from pyvc import ops as _ops
+
+    def fld_(st, o, f):
+        return z3.Select(st.field_array(f), V.Val.a(o))
+
+    c.requires("a multi-arity fn node without kwargs support or a local name, whose arities are fn arities without a return tag",
+               lambda a: z3.And(_ops.eq_term(None, fld_(a.pre.st, a.node, "op"), a.eng.lift(nodes.NodeOp.FN, a.pre.st)), V.is_none(fld_(a.pre.st, a.node, "kwarg_support")),
+                                V.is_none(fld_(a.pre.st, a.node, "local")), z3.Not(z3.And(VAR1, VAR2)),
+                                *[_ops.eq_term(None, fld_(a.pre.st, o.t, "op"), a.eng.lift(nodes.NodeOp.FN_ARITY, a.pre.st)) for o in a.pre.st.ghost["arity_objs"]]))
+    c.raises()
+
+    def recur_post(a):
+        pts = a.post.st.ghost.get("recur_points", [])
+        if len(pts) != 2:
+            return z3.BoolVal(False)
+        return z3.And(pts[0][0] == LOOP1, pts[0][1] == V.mk_bool(VAR1), pts[1][0] == LOOP2, pts[1][1] == V.mk_bool(VAR2))
+
+    c.ensures("each arity is generated under a recur point of its own loop that carries that arity's own variadic-ness (not the function's): recur inside a fixed arity "
+              "passes its arguments on as they are, recur inside the variadic arity unrolls the new rest value", recur_post)
+
     c = pack.contract("basilisp.lang.compiler.generator:__fn_decorator")
     c.param_value("arities", lambda eng, st: [1, 3])
     c.param_value("has_rest_arg", lambda eng, st: True)
@@ -439,6 +526,7 @@ src = """(ns c08.replay)
 (defn f4only [a b c d & more] [:f4only a b c d])
 (defn g ([a] [:g1 a]) ([a b] [:g2 a b]) ([a b & more] [:gv a b (vec more)]))
 (defn h3 ([a] [:one a]) ([a b c & r] [:rest a b c r]))
+(defn rfix ([n acc] (if (zero? n) acc (recur (dec n) (cons n acc)))) ([n acc & more] [:variadic n acc more]))
 (defn rr [x & more] (if (< x 3) (recur (inc x) more) [:rr x more]))
 (defn rr0 [& more] (if (seq more) (recur (next more)) [:rr0 more]))
 ;; (each step is its own top-level form, so that the order of effects does not depend on how call arguments are compiled)
@@ -465,7 +553,8 @@ src = """(ns c08.replay)
   (apply g [1]) (apply g 1 [2]) (apply g 1 2 [3 4]) (apply g [1 2 3])
   ((partial g 1) 2) ((partial g 1 2) 3 4) ((partial vector 1 2) 3 4) ((partial f2 1) 2 3)
   (rr 0) (rr 0 :a :b) (rr0 1 2 3)
-  (apply h3 [1 2 3]) (apply h3 1 2 [3 4 5]) (apply h3 [7]) (h3 1 2 3 4))
+  (apply h3 [1 2 3]) (apply h3 1 2 [3 4 5]) (apply h3 [7]) (h3 1 2 3 4)
+  (try (rfix 3 nil) (catch python/Exception e (python/type e))) (rfix 1 2 3))
 """
 with tempfile.NamedTemporaryFile("w", suffix=".lpy", delete=False) as fh:
     fh.write(src)
@@ -475,7 +564,7 @@ finally:
     os.unlink(fh.name)
 line = [l for l in out.stdout.splitlines() if l.startswith("RESULT")]
 got = line[0] if line else "no output: " + out.stderr[-400:]
-want = "RESULT [:f0 0 1] true [:f2 0 1 2] true [:f2 10 0 1] true true true [:f2 10 20 30] [:f2only 1 2 true] [:f2only 1 2 true] [:g1 1] [:g2 1 2] [:gv 1 2 [3 4]] [:gv 1 2 [3]] [:g2 1 2] [:gv 1 2 [3 4]] [1 2 3 4] [:f2 1 2 3] [:rr 3 nil] [:rr 3 (:a :b)] [:rr0 nil] [:rest 1 2 3 nil] [:rest 1 2 3 (4 5)] [:one 7] [:rest 1 2 3 (4)]"
+want = "RESULT [:f0 0 1] true [:f2 0 1 2] true [:f2 10 0 1] true true true [:f2 10 20 30] [:f2only 1 2 true] [:f2only 1 2 true] [:g1 1] [:g2 1 2] [:gv 1 2 [3 4]] [:gv 1 2 [3]] [:g2 1 2] [:gv 1 2 [3 4]] [1 2 3 4] [:f2 1 2 3] [:rr 3 nil] [:rr 3 (:a :b)] [:rr0 nil] [:rest 1 2 3 nil] [:rest 1 2 3 (4 5)] [:one 7] [:rest 1 2 3 (4)] (1 2 3) [:variadic 1 2 (3)]"
 print("got     ", got)
 print("expected", want)
 print("REPRODUCED" if got != want else "not reproduced")
